@@ -1592,7 +1592,7 @@ func (x *Exec) step(p *Path, in ssa.Instruction) {
 			set(in, v)
 			return
 		}
-		set(in, Val{K: KAddr, T: in.Type(), A: &Addr{Kind: AField, Obj: ov.S, TKey: tkey, Field: f.Name(), ET: f.Type(), Label: lbl}})
+		set(in, Val{K: KAddr, T: in.Type(), A: &Addr{Kind: AField, Obj: ov.S, TKey: tkey, Field: f.Name(), ET: f.Type(), Label: lbl, Via: ov.Own}})
 	case *ssa.Field:
 		sv := x.val(p, in.X)
 		if sv.K != KStruct {
